@@ -296,6 +296,40 @@ pub fn run(ctx: &mut Ctx) -> (&'static str, String, bool) {
         }
         ctx.merge(p);
     }
+    // ---- the public size-byte rule itself: Mode::encode_length for every length 0..=1100 ------------------------
+    {
+        use insim::net::Mode;
+        let mut p = Part::new();
+        for compressed in MODES {
+            let mode = if compressed { Mode::Compressed } else { Mode::Uncompressed };
+            let lim = limit(compressed);
+            for len in 0usize..=1100 {
+                p.evaluations += 1;
+                p.distinct(&("encode_length", compressed, len));
+                let legal = len >= 4 && len <= lim && len % 4 == 0;
+                let want = if compressed { len / 4 } else { len };
+                let replay = json!({"mode": mode_name(compressed), "len": len});
+                match guarded(|| mode.encode_length(len)) {
+                    Ok(Ok(b)) => {
+                        // a size byte may only ever be issued for a length it describes, within the mode's limit
+                        if len < 4 || len > lim || b as usize != want || (compressed && len % 4 != 0) {
+                            p.violation(
+                                "C03/encode-length/wrong-or-wrapped-size-byte",
+                                format!("{} encode_length({len}) = {b}: limit {lim}, the size byte for {len} bytes would be {want}", mode_name(compressed)),
+                                replay,
+                            );
+                        }
+                    },
+                    Ok(Err(_)) | Err(_) => {
+                        if legal {
+                            p.violation("C03/encode-length/legal-length-refused", format!("{} encode_length({len}) is refused although {len} is a legal frame length", mode_name(compressed)), replay);
+                        }
+                    },
+                }
+            }
+        }
+        ctx.merge(p);
+    }
     ctx.assume("a panic counts as a loud refusal only where the reference says the packet is unrepresentable in that mode (size over the limit, count over 255 or the protocol maximum, 4-bit field over 15)");
     (
         "exploration",
